@@ -53,6 +53,29 @@ def is_unsigned(fn, eid):
     return False
 
 
+def lossy_sites(fn):
+    """other operations that silently drop bits of a 64-bit immediate local: `W &= c`, `W & c`, W passed to the templated
+    Opcode::add_imm / xor_imm (which converts to uint32_t)"""
+    out = []
+    par = fn.parent_map()
+    for i, x in fn.ex.items():
+        if x["k"] == "binop" and x["op"] in ("&=", "&"):
+            for a, b in ((x["lhs"], x["rhs"]), (x["rhs"], x["lhs"])):
+                w = wide_root(fn, a)
+                m = fn.e(fn.strip(b))
+                if w is not None and is_unsigned(fn, a) and m is not None and isinstance(m.get("cv"), int) and 0 <= m["cv"] < 0xFFFFFFFF:
+                    # (a mask of exactly 32 one-bits re-interprets the immediate at register width - negative values are legal there)
+                    out.append((i, w, "mask"))
+                    break
+                if x["op"] == "&=":
+                    break
+        elif x["k"] == "mcall" and x.get("cn") in ("add_imm", "xor_imm") and x.get("args"):
+            w = wide_root(fn, x["args"][0])
+            if w is not None:
+                out.append((i, w, "arg"))
+    return out
+
+
 def sites(fn):
     out = []
     for i, x in fn.ex.items():
@@ -94,6 +117,24 @@ def guard_facts(fn, atom, holds):
         w = wide_root(fn, x["args"][0])
         if w is not None:
             return [("ranged", w)]
+    if x and x["k"] == "binop" and x["op"] in ("==", "!="):
+        # `(W & K) == 0` on the edge where it holds: W has no bit of K, i.e. W <= ~K
+        z = fn.e(fn.strip(x["rhs"]))
+        l = fn.e(x["lhs"])
+        while l and l["k"] in ("paren",):
+            l = fn.e(l["sub"])
+        if z is not None and z.get("cv") == 0 and l and l["k"] == "binop" and l["op"] == "&" and (x["op"] == "==") == holds:
+            for a, b in ((l["lhs"], l["rhs"]), (l["rhs"], l["lhs"])):
+                w = wide_root(fn, a)
+                kx = fn.e(fn.strip(b))
+                kv = kx.get("cv") if kx is not None else None
+                if isinstance(kv, str) and kv.lstrip("-").isdigit():
+                    kv = int(kv)
+                if w is not None and isinstance(kv, int):
+                    rest = ~kv & 0xFFFFFFFFFFFFFFFF
+                    if rest < (1 << 32):
+                        return [("ranged", w), ("ub", w, rest)]
+        return []
     if not (x and x["k"] == "binop" and x["op"] in ("<", "<=", ">", ">=")):
         return []
     # normalise to  small REL big  with REL in {"<", "<="}
@@ -155,6 +196,11 @@ def analysis(fn):
             tgt = fn.e(fn.strip(x["lhs"]))
         elif x["k"] == "unop" and x["op"] in ("++", "--"):
             tgt = fn.e(fn.strip(x["sub"]))
+        if x["k"] == "binop" and x["op"] == "&=":
+            t2 = fn.e(fn.strip(x["lhs"]))
+            mk = fn.e(fn.strip(x["rhs"]))
+            if t2 and t2["k"] == "ref" and "did" in t2 and mk is not None and isinstance(mk.get("cv"), int) and 0 <= mk["cv"] < (1 << 32):
+                return ((("ranged", t2["did"]),), tuple(f for f in allf.get(t2["did"], ()) if f[0] == "ub"))
         if tgt and tgt["k"] == "ref" and "did" in tgt:
             return ((), tuple(allf.get(tgt["did"], ())) + (("ranged", tgt["did"]),))
         return None
@@ -187,7 +233,7 @@ def bounded_sink(chk, rule, fn, sink, limit, what):
     return n
 
 
-def run(chk, fns, rule="R-NARROW-GUARDED", floor=2):
+def run(chk, fns, rule="R-NARROW-GUARDED", floor=2, lossy=False):
     chk.rule(rule, "every explicit narrowing conversion of a 64-bit displacement variable is dominated by a range predicate over that variable "
                    "(is_int_n / is_uint_n, must-analysis on the passing edge) or its result is compared with the variable on every path to a "
                    "success exit (round-trip test): a displacement is never truncated silently")
@@ -198,6 +244,16 @@ def run(chk, fns, rule="R-NARROW-GUARDED", floor=2):
             continue
 
         m = analysis(fn)
+        if lossy:
+            for i, w, kind in lossy_sites(fn):
+                n += 1
+                name = fn.name.split("::")[-1]
+                st = m.before(i)
+                ok = st is not None and ("ranged", w) in st
+                chk.ob(rule, "%s|%s:%s#%d" % (name, kind, " ".join(fn.text(i).split())[:36], n), ok, loc=fn.loc(i),
+                       detail="`%s` drops the upper bits of a 64-bit immediate that no comparison on this path has bounded: an out-of-range "
+                              "immediate is silently reduced instead of refused" % " ".join(fn.text(i).split())[:60],
+                       key="narrow|%s|%s|%s" % (name, kind, re.sub(r"\s+", "", fn.text(i))[:40]))
         for i, w, masked in ss:
             n += 1
             name = fn.name.split("::")[-1]
